@@ -22,9 +22,12 @@ package common
 
 //@ -- PARSE. Property: panics iff the text is not a decimal or is negative; otherwise the value is floor(value * 10^8).
 //@ -- (the second existing C05 clause is about the value of one string literal and stays assumed)
+//@ -- FINDING F7: the code ALSO panics (inside decimal.Mul, "exponent N overflows an int32!") for a decimal text whose exponent + 8 does not
+//@ -- fit an int32, e.g. "1e2147483640". The third disjunct documents that behaviour, so that everything else can be verified; the
+//@ -- property's claim that it never applies is the lemma ParseAcceptsEveryNonNegativeDecimal below, which FAILS (known finding).
 //@ func NewIntegerFromString(x)
 //@   property C33
-//@   panics when !DecTextOK(x) || DecTextNum(x) < 0
+//@   panics when !DecTextOK(x) || DecTextNum(x) < 0 || !InInt32(DecTextExp(x) + 8)
 //@   modifies nothing
 //@   ensures [truncated-to-8-places] val(v) == Floor8(x)
 //@   ensures [non-negative] val(v) >= 0
@@ -47,7 +50,8 @@ package common
 //@ func (x *Integer) UnmarshalJSON(b)
 //@   property C33
 //@   requires x != nil
-//@   panics when crypto.UnquoteOK(old(bytestr(b))) && (!DecTextOK(crypto.UnquoteOf(old(bytestr(b)))) || DecTextNum(crypto.UnquoteOf(old(bytestr(b)))) < 0)
+//@   panics when crypto.UnquoteOK(old(bytestr(b))) && (!DecTextOK(crypto.UnquoteOf(old(bytestr(b)))) || DecTextNum(crypto.UnquoteOf(old(bytestr(b)))) < 0 ||
+//@     !InInt32(DecTextExp(crypto.UnquoteOf(old(bytestr(b)))) + 8))
 //@   modifies x.i
 //@   ensures [accept-iff] err == nil <==> crypto.UnquoteOK(old(bytestr(b)))
 //@   ensures [value] err == nil ==> val(*x) == Floor8(crypto.UnquoteOf(old(bytestr(b))))
@@ -69,3 +73,12 @@ package common
 //@   ensures [accepted] DecTextOK(IntText(v)) && DecTextNum(IntText(v)) >= 0
 //@   ensures [exact] DecTextNum(IntText(v)) == v && DecTextExp(IntText(v)) == 0 - 8
 //@   ensures [same] Floor8(IntText(v)) == v
+
+//@ -- "accept everything else without failing": every exponent decimal.NewFromString can return (an int32) must survive the scaling by
+//@ -- 10^8, i.e. the third disjunct of NewIntegerFromString's panic condition must be impossible. It is not: e = 2147483640.
+//@ -- FINDING F7 (known_findings.json, findings/F7). Pure integer arithmetic: no axioms, so the counter-model is found at once.
+//@ lemma ParseAcceptsEveryNonNegativeDecimal(e mathint)
+//@   property C33
+//@   requires noaxioms()
+//@   requires InInt32(e)
+//@   ensures [no-exponent-overflow] InInt32(e + 8)
